@@ -61,7 +61,7 @@ type scen struct {
 	Comb     string // marshal | unmarshal | serde | mux | batcher | dual | queue
 	N        int    // input length
 	W        int    // workers / lanes / batch size
-	Pat      string // plain | big | slowcons | slowprod | burst | yield | stall | jitter | testmux
+	Pat      string // plain | big | slowcons | slowprod | burst | yield | stall | longstall | jitter | testmux
 	Procs    int    // GOMAXPROCS
 	Seed     int64
 	CapIn    int // capacity of the caller's input channel
@@ -145,6 +145,14 @@ func (p *pace) consumer(k int) {
 		// producer is pushed back, then everything drains
 		if k%1000 == 1 {
 			time.Sleep(20 * time.Millisecond)
+		}
+	case "longstall":
+		// a reader that starts late and later pauses for longer than any plausible internal time-out:
+		// nothing but back-pressure may happen meanwhile
+		if k == 1 {
+			time.Sleep(1200 * time.Millisecond)
+		} else if k%1000 == 500 {
+			time.Sleep(300 * time.Millisecond)
 		}
 	case "yield":
 		if p.rng.Intn(3) == 0 {
